@@ -172,13 +172,14 @@ class CSSPageRule(cssrule.CSSRuleRules):
                             token,
                         )
                     else:
-                        if ival not in ('first', 'left', 'right'):
+                        nival = self._normalize(ival)
+                        if nival not in ('first', 'left', 'right'):
                             self._log.warn(
                                 'CSSPageRule: Unknown @page '
                                 'selector: %r' % (':' + ival,),
                                 neverraise=True,
                             )
-                        if ival == 'first':
+                        if nival == 'first':
                             new['first'] = 1
                         else:
                             new['lr'] = 1
